@@ -25,7 +25,9 @@ THEOREMS = {
     "C04": {
         "modules": ["Abnf.Theorems.C04"],
         "theorems": ["Abnf.C04.decodeNum_spec", "Abnf.C04.decodeRepeat_spec", "Abnf.C04.decodeNumVal_spec", "Abnf.C04.charVal_flag_spec",
-                     "Abnf.C04.definedAs_layout_independent", "Abnf.C04.lf_vs_crlf"],
+                     "Abnf.C04.definedAs_layout_independent", "Abnf.C04.lf_vs_crlf", "Abnf.C04.rule_index",
+                     "Abnf.C04.create_rejects_iff_not_derivable", "Abnf.accepts_iff_derivable_on", "Abnf.Obl.Meta.meta_wf",
+                     "Abnf.Obl.Meta.meta_plain", "Abnf.Obl.Meta.meta_closed"],
     },
     "C06": {
         "modules": ["Abnf.Theorems.C06"],
@@ -88,14 +90,14 @@ THEOREMS = {
                      "Abnf.C09.flags_as_documented", "Abnf.C09.plain_reach", "Abnf.C09.bundled_engine_exact_wrt_text"],
     },
     "C15": {
-        "modules": ["Abnf.Theorems.C15", "Abnf.Theorems.C09"],
-        "theorems": ["Abnf.C05.reader_total_and_exact", "Abnf.C09.bundled_rule_total_and_sound", "Abnf.sub_sound", "Abnf.equiv_pairs",
+        "modules": ["Abnf.Theorems.C15", "Abnf.Obligations.BundledFacts"],
+        "theorems": ["Abnf.C09.bundled_rule_total_and_sound", "Abnf.sub_sound", "Abnf.equiv_pairs", "Abnf.Obl.Meta.meta_wf",
                      "Abnf.C15.seeds_7405", "Abnf.C15.equiv_ok_7405", "Abnf.C15.reader_equiv_rfc7405", "Abnf.C15.seeds_5234",
-                     "Abnf.C15.equiv_ok_5234", "Abnf.C15.reader_equiv_rfc5234", "Abnf.C15.rfc7405_is_rfc",
+                     "Abnf.C15.equiv_ok_5234", "Abnf.C15.reader_equiv_rfc5234",
                      "Abnf.lparse_complete_on", "Abnf.plainOnG_sound", "Abnf.C15.reach_plain_7405", "Abnf.C15.accepted_alike_rfc7405"],
     },
     "C19": {
-        "modules": ["Abnf.Theorems.C19", "Abnf.Theorems.C09", "Abnf.Theorems.C01"],
+        "modules": ["Abnf.Theorems.C19", "Abnf.Obligations.BundledFacts", "Abnf.Theorems.C01"],
         "theorems": ["Abnf.C09.bundled_rule_total_and_sound", "Abnf.C01.ends_iff_derivable", "Abnf.sub_sound", "Abnf.equiv_pairs",
                      "Abnf.C19.seeds_ok", "Abnf.C19.equiv_ok", "Abnf.C19.shared_constructs_equal", "Abnf.C19.shared_constructs_accept_same",
                      "Abnf.lparse_complete_on", "Abnf.plainOnG_sound", "Abnf.C19.reach_plain", "Abnf.C19.shared_constructs_accepted_alike"],
